@@ -906,7 +906,11 @@ class Gen:
         for h in sorted(self.epoch_views):
             if h in self.np.H:
                 if self.rng.random() < self.p.get("p_keep_stale", 0.0):
-                    if reused is None and self.rng.random() < self.p.get("p_reuse_stale", 0.0):
+                    A_ = self.np.H[h]
+                    selfoverlap = any(st_ == 0 and d > 1 for st_, d in zip(A_.strides, A_.shape))
+                    # (a broadcast view is not eligible: detached, its elements alias each other - a leaf whose
+                    #  "value" has fewer degrees of freedom than elements)
+                    if reused is None and not selfoverlap and self.rng.random() < self.p.get("p_reuse_stale", 0.0):
                         # ONE disconnected view of the epoch that ended goes on being used (as an operand, as the parent
                         # of new views): its base lingers until its next use, then it is a base of its own.  Every other
                         # tensor over the same memory is retired (observed, never used again): a detached view and its
